@@ -10,6 +10,7 @@
   cancelled context) / leave` and of close callbacks.  Model: `Hv/Conc/Summon.lean`.
 -/
 import Hv.Conc.SummonLemmas
+import Hv.Conc.SummonExit
 import Hv.Basic.Verdict
 
 namespace Hv.C18
@@ -357,6 +358,10 @@ structure Facts where
   /-- the close callback removes the `swamps` entry only if it is still this instance
       (`CompareAndDelete`): yes; `swamps.Delete(name)`: no -/
   callbackCompares : Tri
+  /-- the deferred exit ends with `if err == nil && swampObj != nil && swampObj.IsClosing() { … swampObj, err =
+      h.SummonSwamp(ctx, islandID, swampName) }`: an instance that was closed while the summoner left the
+      wait slot is not handed out — the summoner enters the protocol again (yes); no such statement (no) -/
+  exitRechecksClosing : Tri
   deriving Repr
 
 def structural (f : Facts) : Bool :=
@@ -372,8 +377,38 @@ def rcFact (f : Facts) : Option Bool :=
   | .no, .no => some false
   | _, _ => none
 
+/-- The property with the hand-out clause: besides `Holds` (one live instance, one summoner inside —
+    the re-summon of the deferred exit is an ordinary entrant of the same LTS, another thread id, so
+    `summon_mutex` covers it unchanged), the instance a summoner hands out is not closing at hand-out. -/
+structure HoldsAll (cfg : Cfg) (exitRechecks : Bool) : Prop where
+  core : Holds cfg
+  handsOutLive : ∀ as s, SummonExit.run ⟨exitRechecks⟩ SummonExit.init as = some s → s.handedClosed = false
+
+/-- the re-entry after a closed instance is just another entrant: `summon_mutex` for every schedule,
+    whatever thread ids take part -/
+theorem resummon_covered : Holds rc := summon_mutex
+
+theorem holds_all : HoldsAll rc true := ⟨summon_mutex, SummonExit.hands_out_live⟩
+
+/-- no re-check at the end of the deferred exit: an instance closed by its idle listener while the
+    summoner was leaving the wait slot is handed out (`SummonExit.witness_hands_out_closed`) -/
+theorem refutes_noRecheck (cfg : Cfg) : ¬ HoldsAll cfg false := by
+  intro h
+  have hw := SummonExit.witness_hands_out_closed
+  cases hs : SummonExit.run ⟨false⟩ SummonExit.init SummonExit.witness with
+  | none => simp [hs] at hw
+  | some s =>
+    simp [hs] at hw
+    have := h.handsOutLive SummonExit.witness s hs
+    rw [hw.2] at this
+    cases this
+
 def classify (f : Facts) : Verdict :=
   if !structural f then .undetermined "SummonSwamp no longer has the modelled shape" else
+  match triBool f.exitRechecksClosing with
+  | none => .undetermined "the end of SummonSwamp's deferred exit"
+  | some false => .violated ["C18-hands-out-closed-instance"]
+  | some true =>
   match rcFact f, triBool f.callbackCompares with
   | some true, some true => .holds
   | some false, some true => .violated ["C18-slot-dropped-while-in-use"]
@@ -384,20 +419,32 @@ def classify (f : Facts) : Verdict :=
 def cfgOf (f : Facts) : Cfg :=
   { refCounted := (rcFact f).getD false, callbackCompares := (triBool f.callbackCompares).getD false }
 
-theorem classify_sound (f : Facts) : (classify f).Sound (Holds (cfgOf f)) := by
+def exitOf (f : Facts) : Bool := f.exitRechecksClosing.isYes
+
+theorem classify_sound (f : Facts) : (classify f).Sound (HoldsAll (cfgOf f) (exitOf f)) := by
   unfold classify
   split
   · simp [Verdict.Sound]
-  · cases hr : rcFact f with
-    | none => simp [Verdict.Sound]
-    | some r =>
-      cases hc : triBool f.callbackCompares with
+  · cases he : f.exitRechecksClosing
+    · -- yes
+      rw [show triBool Tri.yes = some true from rfl]
+      dsimp only
+      cases hr : rcFact f with
       | none => simp [Verdict.Sound]
-      | some c =>
-        cases r <;> cases c <;> simp only [Verdict.Sound, cfgOf, hr, hc, Option.getD]
-        · exact ⟨refutes_waiterCount false, trivial⟩
-        · exact ⟨refutes_waiterCount true, trivial⟩
-        · exact ⟨refutes_staleCallback, trivial⟩
-        · exact summon_mutex
+      | some r =>
+        cases hc : triBool f.callbackCompares with
+        | none => simp [Verdict.Sound]
+        | some c =>
+          cases r <;> cases c <;> simp only [Verdict.Sound, cfgOf, exitOf, he, hr, hc, Option.getD, Tri.isYes]
+          · exact ⟨fun h => refutes_waiterCount false h.core, trivial⟩
+          · exact ⟨fun h => refutes_waiterCount true h.core, trivial⟩
+          · exact ⟨fun h => refutes_staleCallback h.core, trivial⟩
+          · exact holds_all
+    · -- no
+      rw [show triBool Tri.no = some false from rfl]
+      simp only [Verdict.Sound, exitOf, he, Tri.isYes]
+      exact ⟨refutes_noRecheck _, trivial⟩
+    · rw [show triBool Tri.unknown = none from rfl]
+      simp [Verdict.Sound]
 
 end Hv.C18
